@@ -6,7 +6,8 @@ use sway_error::handler::{ErrorEmitted, Handler};
 use sway_types::Span;
 
 use crate::decl_engine::DeclEngine;
-use crate::{language::ty, language::Literal, TypeInfo};
+use crate::{language::ty, language::Literal, type_system::TypeId, Engines, TypeInfo};
+use sway_types::integer_bits::IntegerBits;
 
 use super::{patstack::PatStack, range::Range};
 
@@ -114,24 +115,39 @@ pub(crate) enum Pattern {
 
 impl Pattern {
     /// Converts a `Scrutinee` to a `Pattern`.
-    pub(crate) fn from_scrutinee(scrutinee: ty::TyScrutinee) -> Self {
+    pub(crate) fn from_scrutinee(engines: &Engines, scrutinee: ty::TyScrutinee) -> Self {
+        let type_id = scrutinee.type_id;
         let pat = match scrutinee.variant {
             ty::TyScrutineeVariant::CatchAll => Pattern::Wildcard,
             ty::TyScrutineeVariant::Variable(_) => Pattern::Wildcard,
-            ty::TyScrutineeVariant::Literal(value) => Pattern::from_literal(value),
-            ty::TyScrutineeVariant::Constant(_, value, _) => Pattern::from_literal(value),
+            ty::TyScrutineeVariant::Literal(value) => {
+                Pattern::from_literal(engines, type_id, value)
+            }
+            ty::TyScrutineeVariant::Constant(_, value, _) => {
+                Pattern::from_literal(engines, type_id, value)
+            }
             ty::TyScrutineeVariant::StructScrutinee {
                 struct_ref,
                 fields,
                 instantiation_call_path: _,
             } => {
+                // The constructor of a struct pattern has one sub-pattern per declared
+                // field, in declaration order. Fields that the scrutinee does not list
+                // (`..`) or lists without a nested scrutinee match anything.
+                let struct_decl = engines.de().get_struct(struct_ref.id());
                 let mut new_fields = vec![];
-                for field in fields.into_iter() {
-                    let f = match field.scrutinee {
-                        Some(scrutinee) => Pattern::from_scrutinee(scrutinee),
-                        None => Pattern::Wildcard,
+                for decl_field in struct_decl.fields.iter() {
+                    let f = match fields
+                        .iter()
+                        .find(|field| field.field.as_str() == decl_field.name.as_str())
+                    {
+                        Some(ty::TyStructScrutineeField {
+                            scrutinee: Some(scrutinee),
+                            ..
+                        }) => Pattern::from_scrutinee(engines, scrutinee.clone()),
+                        _ => Pattern::Wildcard,
                     };
-                    new_fields.push((field.field.as_str().to_string(), f));
+                    new_fields.push((decl_field.name.as_str().to_string(), f));
                 }
                 Pattern::Struct(StructPattern {
                     struct_name: struct_ref.name().to_string(),
@@ -141,14 +157,14 @@ impl Pattern {
             ty::TyScrutineeVariant::Or(elems) => {
                 let mut new_elems = PatStack::empty();
                 for elem in elems.into_iter() {
-                    new_elems.push(Pattern::from_scrutinee(elem));
+                    new_elems.push(Pattern::from_scrutinee(engines, elem));
                 }
                 Pattern::Or(new_elems)
             }
             ty::TyScrutineeVariant::Tuple(elems) => {
                 let mut new_elems = PatStack::empty();
                 for elem in elems.into_iter() {
-                    new_elems.push(Pattern::from_scrutinee(elem));
+                    new_elems.push(Pattern::from_scrutinee(engines, elem));
                 }
                 Pattern::Tuple(new_elems)
             }
@@ -160,14 +176,39 @@ impl Pattern {
             } => Pattern::Enum(EnumPattern {
                 enum_name: enum_ref.name().to_string(),
                 variant_name: variant.name.to_string(),
-                value: Box::new(Pattern::from_scrutinee(*value)),
+                value: Box::new(Pattern::from_scrutinee(engines, *value)),
             }),
         };
         pat
     }
 
     /// Convert the given literal `value` into a pattern.
-    fn from_literal(value: Literal) -> Pattern {
+    fn from_literal(engines: &Engines, type_id: TypeId, value: Literal) -> Pattern {
+        // An unsuffixed integer literal is a constructor of the integer type that the
+        // scrutinee was unified with, not of `u64`.
+        if let Literal::Numeric(x) = value {
+            match &*engines.te().get(type_id) {
+                TypeInfo::UnsignedInteger(IntegerBits::Eight) => {
+                    if let Ok(x) = u8::try_from(x) {
+                        return Pattern::U8(Range::from_single(x));
+                    }
+                }
+                TypeInfo::UnsignedInteger(IntegerBits::Sixteen) => {
+                    if let Ok(x) = u16::try_from(x) {
+                        return Pattern::U16(Range::from_single(x));
+                    }
+                }
+                TypeInfo::UnsignedInteger(IntegerBits::ThirtyTwo) => {
+                    if let Ok(x) = u32::try_from(x) {
+                        return Pattern::U32(Range::from_single(x));
+                    }
+                }
+                TypeInfo::UnsignedInteger(IntegerBits::SixtyFour) => {
+                    return Pattern::U64(Range::from_single(x));
+                }
+                _ => {}
+            }
+        }
         match value {
             Literal::U8(x) => Pattern::U8(Range::from_single(x)),
             Literal::U16(x) => Pattern::U16(Range::from_single(x)),
@@ -705,6 +746,7 @@ impl fmt::Display for Pattern {
             Pattern::Struct(struct_pattern) => format!("{struct_pattern}"),
             Pattern::Enum(enum_pattern) => format!("{enum_pattern}"),
             Pattern::Tuple(elems) => {
+                // the elements are positional: keep their order and repetitions
                 let mut builder = String::new();
                 builder.push('(');
                 builder.push_str(
@@ -752,7 +794,6 @@ impl std::cmp::Ord for Pattern {
 
 impl std::cmp::PartialOrd for Pattern {
     fn partial_cmp(&self, other: &Self) -> Option<Ordering> {
-                // the elements are positional: keep their order and repetitions
         Some(self.cmp(other))
     }
 }
